@@ -73,11 +73,15 @@ impl Vm {
     let mut fiber = self.fiber;
     match fiber.stack_unwind(self, bottom_frame) {
       UnwindResult::PotentiallyHandled(frame) => {
+        #[cfg(feature = "verif")]
+        laythe_core::verif::probe(laythe_core::verif::probes::UNWIND_HANDLED);
         self.current_fun = frame.fun();
         self.ip = frame.ip();
         None
       },
       UnwindResult::Unhandled => {
+        #[cfg(feature = "verif")]
+        laythe_core::verif::probe(laythe_core::verif::probes::UNWIND_UNHANDLED);
         self.print_error(error);
         Some(ExecutionResult::RuntimeError)
       },
